@@ -1,14 +1,18 @@
 package props
 
 import (
+	"bufio"
 	"bytes"
 	"fmt"
 	"image"
 	"image/color"
 	"image/jpeg"
 	"image/png"
+	"io"
 	"os"
 	"path/filepath"
+	"strings"
+	"sync"
 
 	"verifharness/internal/core"
 	"verifharness/internal/imggen"
@@ -28,6 +32,9 @@ func latin1(rng *core.RNG, n int) string {
 	b := make([]byte, n)
 	for i := range b {
 		b[i] = byte(32 + rng.Intn(95))
+		if rng.Intn(4) == 0 { // the upper half of Latin-1 (161..255), which PNG keywords and profile names may use
+			b[i] = byte(161 + rng.Intn(95))
+		}
 	}
 	return string(b)
 }
@@ -185,6 +192,20 @@ func profileBytes(rng *core.RNG, n, kind int) []byte {
 		}
 	case 2:
 		rng.Fill(b)
+		// half of the incompressible payloads look like a profile to a casual glance: 'acsp' at offset
+		// 36 and a size field that is exact, understates or overstates the payload (embedded bytes are
+		// to be returned as they are, whatever they claim about themselves)
+		if n >= 132 && rng.Intn(2) == 0 {
+			copy(b[36:], "acsp")
+			size := uint32(n)
+			switch rng.Intn(3) {
+			case 1:
+				size = uint32(128 + rng.Intn(n-128))
+			case 2:
+				size = uint32(n + 1 + rng.Intn(1000))
+			}
+			b[0], b[1], b[2], b[3] = byte(size>>24), byte(size>>16), byte(size>>8), byte(size)
+		}
 	}
 	if n > 0 && b[0] == 0 && kind%3 == 0 {
 		b[n-1] = 1 // keep the final byte recognisable
@@ -386,4 +407,91 @@ func hostileSpecials() []genFile {
 		genFile{"webp VP8L bad signature", []byte("RIFF\x20\x00\x00\x00WEBPVP8L\x05\x00\x00\x00\x2e\x00\x00\x00\x00"), imggen.Truth{Format: "WebP"}},
 	)
 	return out
+}
+
+// bigFiles: well-formed files whose needed structures lie behind, or are themselves, several MiB
+// (a cap such as "no block above 4 MiB", "no more than 16 MiB buffered", "at most 64 chunks" passes
+// every small corpus). Built on demand: about 120 MiB in all.
+func bigFiles(seed int64) []genFile {
+	bigMu.Lock()
+	defer bigMu.Unlock()
+	if bigCache != nil && bigSeed == seed {
+		return bigCache
+	}
+	out := buildBigFiles(seed)
+	bigCache, bigSeed = out, seed
+	return out
+}
+
+var (
+	bigMu    sync.Mutex
+	bigCache []genFile
+	bigSeed  int64
+)
+
+func buildBigFiles(seed int64) []genFile {
+	rng := core.NewRNG(seed, "bigfiles")
+	var out []genFile
+	for _, n := range []int{4<<20 + 4097, 17 << 20} {
+		// PNG: one ancillary chunk of n bytes before IDAT, no profile
+		s := pngSpecFor(uint32(1+rng.Intn(5000)), uint32(1+rng.Intn(5000)), 2, 8, 0, rng)
+		s.Pre = []imggen.PNGChunk{{Type: "tEXt", Data: append([]byte("k\x00"), rng.Bytes(n)...)}}
+		b, t := s.Build()
+		out = append(out, genFile{fmt.Sprintf("big: png with a %d-byte tEXt chunk before IDAT", n+2), b, t})
+		// PNG: incompressible profile of n bytes (stored: the compressed stream is larger than n)
+		s = pngSpecFor(uint32(1+rng.Intn(5000)), uint32(1+rng.Intn(5000)), 6, 16, 1, rng)
+		s.ICC = &imggen.PNGICC{Name: latin1(rng, 9), Profile: profileBytes(rng, n, 2), Level: 1}
+		b, t = s.Build()
+		out = append(out, genFile{fmt.Sprintf("big: png with a %d-byte incompressible profile", n), b, t})
+		// JPEG: n bytes of APPn / COM segments before SOF, no profile
+		js := imggen.JPEGSpec{Precision: 8, W: 1 + rng.Intn(9000), H: 1 + rng.Intn(9000), Comps: imggen.StdComps(3, 2, 1), Entropy: []byte{1, 2, 3}}
+		for got := 0; got < n; got += 65533 {
+			js.Before = append(js.Before, imggen.JPEGSeg{Marker: byte(0xE1 + (got/65533)%15), Payload: rng.Bytes(65533), Name: "APPbig"})
+		}
+		jb, jt := js.Build()
+		out = append(out, genFile{fmt.Sprintf("big: jpeg with %d segments (%d bytes) before SOF", len(js.Before), n), jb, jt})
+		// JPEG: profile of n bytes in ceil(n/65519) chunks (up to 255), after SOF
+		if n/65519 < 255 {
+			p := profileBytes(rng, n, 2)
+			js = imggen.JPEGSpec{Progressive: true, Precision: 8, W: 1 + rng.Intn(9000), H: 1 + rng.Intn(9000), Comps: imggen.StdComps(3, 1, 1), Entropy: []byte{1, 2, 3}}
+			cnt := (n + 65518) / 65519
+			for i, part := range imggen.SplitICC(p, cnt) {
+				js.Before = append(js.Before, imggen.ICCChunkSeg(i+1, cnt, part))
+			}
+			js.ICC, js.ICCState = p, "ok"
+			jb, jt = js.Build()
+			out = append(out, genFile{fmt.Sprintf("big: jpeg with a %d-byte profile in %d chunks", n, cnt), jb, jt})
+		}
+		// WebP: ICCP chunk of n bytes
+		wb, wt := imggen.WebPSpec{Kind: "VP8X", W: uint32(1 + rng.Intn(1<<20)), H: uint32(1 + rng.Intn(1<<20)), ICC: profileBytes(rng, n+1, 2), Payload: rng.Bytes(10)}.Build()
+		out = append(out, genFile{fmt.Sprintf("big: webp with a %d-byte ICCP chunk", n+1), wb, wt})
+	}
+	return out
+}
+
+// readerKinds: the ways a caller may hand the same bytes to a loader. Every reader yields exactly
+// `data` from its current position.
+var readerKindNames = []string{"bytes.Reader", "bytes.Reader@offset", "strings.Reader@offset", "bufio.Reader", "bytes.Buffer", "plain io.Reader", "io.SectionReader"}
+
+func readerOfKind(data []byte, k int) io.Reader {
+	switch readerKindNames[k%len(readerKindNames)] {
+	case "bytes.Reader@offset":
+		off := 1 + len(data)%37
+		br := bytes.NewReader(append(bytes.Repeat([]byte{0x89, 'P'}, off)[:off], data...))
+		_, _ = br.Seek(int64(off), io.SeekStart)
+		return br
+	case "strings.Reader@offset":
+		sr := strings.NewReader("RIFF\xff\xd8\x89PNG" + string(data))
+		_, _ = sr.Seek(10, io.SeekStart)
+		return sr
+	case "bufio.Reader":
+		return bufio.NewReaderSize(bytes.NewReader(data), 16+len(data)%5000)
+	case "bytes.Buffer":
+		return bytes.NewBuffer(append([]byte{}, data...))
+	case "plain io.Reader":
+		return struct{ io.Reader }{bytes.NewReader(data)}
+	case "io.SectionReader":
+		return io.NewSectionReader(bytes.NewReader(append(make([]byte, 123), data...)), 123, int64(len(data)))
+	}
+	return bytes.NewReader(data)
 }
